@@ -433,7 +433,10 @@ func (in *Interp) visitInstr(fr *frame, instr ssa.Instruction) continuation {
 		fr.env[instr] = sl[:l]
 
 	case *ssa.MakeChan:
-		fr.env[instr] = Native{V: new(int)}
+		fr.env[instr] = &ChanV{cap: asInt(fr.get(instr.Size))}
+
+	case *ssa.Send:
+		in.chanSend(fr.get(instr.Chan), fr.get(instr.X))
 
 	case *ssa.MakeMap:
 		fr.env[instr] = newMap(instr.Type().Underlying().(*types.Map).Key())
@@ -1179,7 +1182,8 @@ func (in *Interp) callBuiltin(caller *frame, pos token.Pos, fn *ssa.Builtin, arg
 		return goInt(n)
 
 	case "close":
-		panic(engineErr("close unsupported"))
+		in.chanClose(args[0])
+		return nil
 
 	case "delete":
 		in.mapDelete(args[0].(*Map), args[1])
@@ -1206,6 +1210,11 @@ func (in *Interp) callBuiltin(caller *frame, pos token.Pos, fn *ssa.Builtin, arg
 			return goInt(x.Len())
 		case lazyRunes:
 			return symInt(types.Int, runeCountTerm(x.s.bytes()))
+		case *ChanV:
+			if x == nil {
+				return goInt(0)
+			}
+			return goInt(len(x.buf))
 		}
 		panic(engineErr(fmt.Sprintf("len: %T", args[0])))
 
@@ -1217,6 +1226,11 @@ func (in *Interp) callBuiltin(caller *frame, pos token.Pos, fn *ssa.Builtin, arg
 			return goInt(len((*x).(Array)))
 		case []Value:
 			return goInt(cap(x))
+		case *ChanV:
+			if x == nil {
+				return goInt(0)
+			}
+			return goInt(x.cap)
 		}
 		panic(engineErr(fmt.Sprintf("cap: %T", args[0])))
 
